@@ -467,7 +467,7 @@ def exhaustive_cases(rng, tier):
                     sx = [rng.choice(sx)] if rng.random() < 0.7 else sx
                     sy = [rng.choice(sy)]
                 elif op in BINARY:
-                    sy = rng.sample(sy, min(2, len(sy)))
+                    sy = [rng.choice(sy)]
                 for px in sx:
                     for py in sy:
                         out.append((op, px, py, rng.choice([None, 2, 3]), 0))
@@ -515,7 +515,7 @@ CORPUS = [
 def generate(rng, tier):
     cases = list(CORPUS)
     cases += exhaustive_cases(rng, tier)
-    n = 2500 if tier == 'quick' else 40000
+    n = 2500 if tier == 'quick' else 30000
     ops = list(range(len(OPS)))
     for i in range(n):
         cases.append(random_case(rng, ops[i % len(ops)]))
